@@ -66,8 +66,9 @@ PROPS = {
     },
     "C20": {
         "pkg": "hwriter", "test": "TestC20(_Malformed)?", "ntests": 2, "replay_test": "TestC20_Replay", "level": "exploration",
-        "quick": T(16, 700), "thorough": T(16, 50000, timeout=5000),
-        "rule": "rapid over 18 op kinds and 4 API events with arbitrary identifiers, index params, partition lists with members recorded as dropped, replica numbers, resource groups, user/role/privilege tuples, "
+        "quick": T(16, 0, tests=[{"test": "TestC20(_Malformed)?", "checks": 700, "n": 2}, {"test": "TestC20_RealHandler", "checks": 150, "pkg": "hserver", "shards": 4}]),
+        "thorough": T(16, 0, timeout=5000, tests=[{"test": "TestC20(_Malformed)?", "checks": 50000, "n": 2}, {"test": "TestC20_RealHandler", "checks": 4000, "pkg": "hserver", "shards": 8}]),
+        "rule": "TestC20_RealHandler (below the DataHandler seam): generated parameters of 13 operation kinds (grant / revoke with their database, user-role, role, user, load / release / create / drop partition, release collection, drop database) are handed to the REAL MilvusDataHandler + SDK client and the gRPC request arriving at the fake downstream is compared with them, including the database the call is routed to. rapid over 18 op kinds and 4 API events with arbitrary identifiers, index params, partition lists with members recorded as dropped, replica numbers, resource groups, user/role/privilege tuples, "
                 "valid/invalid password encodings, schemas with 1..5 user fields (+dynamic field), shard number, consistency level, properties; plus malformed packs. Oracle: exactly one downstream request of the "
                 "corresponding kind, deep comparison with the source (names excluded: C09), replication stamp = pack end-position time / event time, dropped partitions removed in order, malformed pack -> error and zero calls. "
                 "non-trivial = operation with list-valued or nested fields; distinct = distinct contents",
